@@ -24,16 +24,33 @@ ASSUMPTIONS = ["hand-over discipline as stated in the property; concatenate / co
                "the reference model (mc/props/c16.py: model_apply) is the trusted base"]
 
 VAL = {"a": 1, "b": 2, "z": 0}
+VAL_BIG = {"a": 1, "b": 2 ** 24 + 1, "z": 0}       # a magnitude at which a narrower number type in the sums would round
 ITEMS = ("a", "b", "z")
 EXPLORER_STATS = None
+# kinds: "<manager>" | "<manager>+records" | "<manager>+big"
+#   +records: every added item is a freshly built (name, value) record and valueof reads the record - short-lived item objects
+#   +big:     item b is worth 2**24+1
+KINDS = ("sums", "contents", "sums+records", "contents+records", "sums+big", "contents+big")
+_CUR = [VAL]
+
+
+def base(kind):
+    return kind.split("+")[0]
+
+
+def _set_kind(kind):
+    _CUR[0] = VAL_BIG if kind.endswith("+big") else VAL
 
 
 def bounds(tier):
     A, Bmax, D = PARAMS[tier]
-    return {"live arrays": A, "bins per array": Bmax, "depth": D, "items": VAL, "managers": ["BinnerKeepingSums", "BinnerKeepingContents"]}
+    A2, B2, D2 = PARAMS2[tier]
+    return {"live arrays": A, "bins per array": Bmax, "depth": D, "items": VAL, "managers": ["BinnerKeepingSums", "BinnerKeepingContents"],
+            "variants": f"items as freshly built (name, value) records, and item b worth 2**24+1: {A2} live arrays, {B2} bins, depth {D2}"}
 
 
 PARAMS = {"quick": (2, 3, 6), "thorough": (3, 3, 7)}
+PARAMS2 = {"quick": (2, 2, 5), "thorough": (2, 3, 6)}
 
 
 # ------------------------------------------------------------------ model
@@ -100,14 +117,16 @@ def model_apply(pool, op):
 
 
 def msum(b):
-    return float(sum(VAL[x] for x in b))
+    return float(sum(_CUR[0][x] for x in b))
 
 
 # ------------------------------------------------------------------ real side
 
 def make_binner(kind):
-    cls = repo.prtpy.BinnerKeepingContents if kind == "contents" else repo.prtpy.BinnerKeepingSums
-    return cls(VAL.__getitem__)
+    cls = repo.prtpy.BinnerKeepingContents if base(kind) == "contents" else repo.prtpy.BinnerKeepingSums
+    if kind.endswith("+records"):
+        return cls(lambda rec: rec[1])
+    return cls(_CUR[0].__getitem__)
 
 
 def real_apply(binner, pool, op):
@@ -119,6 +138,8 @@ def real_apply(binner, pool, op):
         pool.append(binner.copy_bins(pool[op[1]])); return
     if kind == "add":
         _, i, item, idx = op
+        if _RECORDS[0]:
+            item = tuple([item, _CUR[0][item]])        # a new record object for every addition
         r = binner.add_item_to_bin(pool[i], item, idx)
         return ("add_return", r, pool[i])
     if kind == "sort":
@@ -145,11 +166,16 @@ def real_apply(binner, pool, op):
     raise ValueError(op)
 
 
+_RECORDS = [False]
+
+
 def observe(binner, kind, arr):
     """everything observable of one real array -> plain python"""
     o = {"sums": tuple(float(v) for v in binner.sums(arr)), "numbins": int(binner.numbins(arr))}
+    rec = kind.endswith("+records")
+    kind = base(kind)
     if kind == "contents":
-        o["lists"] = tuple(tuple(b) for b in arr[1])
+        o["lists"] = tuple(tuple((x[0] if rec else x) for x in b) for b in arr[1])
         o["numitems"] = tuple(binner.numitems(arr, i) for i in range(o["numbins"]))
     else:
         try:
@@ -161,6 +187,7 @@ def observe(binner, kind, arr):
 
 
 def expected(kind, marr):
+    kind = base(kind)
     o = {"sums": tuple(msum(b) for b in marr), "numbins": len(marr)}
     if kind == "contents":
         o["lists"] = tuple(tuple(b) for b in marr)
@@ -171,7 +198,7 @@ def expected(kind, marr):
 
 
 def sums_array(kind, arr):
-    return arr[0] if kind == "contents" else arr
+    return arr[0] if base(kind) == "contents" else arr
 
 
 def alias_signature(kind, pool):
@@ -184,7 +211,7 @@ def alias_signature(kind, pool):
         for j in range(i + 1, len(arrs)):
             if isinstance(arrs[i], np.ndarray) and isinstance(arrs[j], np.ndarray) and np.shares_memory(arrs[i], arrs[j]):
                 sig.append(("mem", i, j))
-    if kind == "contents":
+    if base(kind) == "contents":
         inner = {}
         for i, a in enumerate(pool):
             for b, lst in enumerate(a[1]):
@@ -203,6 +230,7 @@ def alias_signature(kind, pool):
 
 def rebuild(kind, history):
     """fresh binner, history replayed on real objects and on the model (sort order adopted from the implementation)"""
+    _set_kind(kind); _RECORDS[0] = kind.endswith("+records")
     binner = make_binner(kind)
     real, model = [], []
     for op in history:
@@ -220,7 +248,7 @@ def _model_step(binner, kind, real, model, op, check):
         obs = observe(binner, kind, real[i])
         old = model[i]
         new_model = [[list(b) for b in arr] for arr in model]
-        if kind == "contents":
+        if base(kind) == "contents":
             # a permutation of the (sum, contents) pairs, in non-decreasing sum order; order among equal sums = implementation's
             want = Counter((msum(b), tuple(b)) for b in old)
             got = Counter(zip(obs["sums"], obs["lists"]))
@@ -241,7 +269,7 @@ def _model_step(binner, kind, real, model, op, check):
     if check is not None:
         acc.ran(op[0]); acc.check()
         ctx = {"kind": kind, "history": hist + [op]}
-        name = "BinnerKeepingContents" if kind == "contents" else "BinnerKeepingSums"
+        name = ("BinnerKeepingContents" if base(kind) == "contents" else "BinnerKeepingSums") + kind[len(base(kind)):]
         # 2. every live array equals the model
         if len(real) != len(model):
             acc.violation(name, op[0], _h(hist + [op]), "pool_size", len(model), len(real), ctx)
@@ -274,7 +302,7 @@ def _h(hist):
 def _step_checked(acc, kind, history, op):
     """replay history, then apply `op` with argument-preservation and model comparison"""
     binner, real, model = rebuild(kind, history)
-    name = "BinnerKeepingContents" if kind == "contents" else "BinnerKeepingSums"
+    name = ("BinnerKeepingContents" if base(kind) == "contents" else "BinnerKeepingSums") + kind[len(base(kind)):]
     # handles + snapshots of arguments that the documentation says are not modified by the call itself
     k0 = op[0]
     argidx = ([op[1]] if k0 in ("add_empty", "remove", "copy") else [op[1], op[2]] if k0 == "concat" else [op[3]] if k0 == "combine" else [])
@@ -304,7 +332,7 @@ def _step_checked(acc, kind, history, op):
             now = f"{type(e).__name__}"
         if now != s:
             acc.violation(name, op[0], _h(list(history) + [op]), "unrelated_array_changed", s, now, ctx)
-    key = (tuple(tuple(tuple(b) for b in arr) for arr in model2) if kind == "contents"
+    key = (tuple(tuple(tuple(b) for b in arr) for arr in model2) if base(kind) == "contents"
            else tuple(tuple(msum(b) for b in arr) for arr in model2), alias_signature(kind, real))
     return key, model2
 
@@ -332,9 +360,10 @@ def expand(arg):
 
 def explore(tier, seed, pmap):
     global EXPLORER_STATS
-    A, Bmax, D = PARAMS[tier]
     stats = {}
-    for kind in ("sums", "contents"):
+    for kind in KINDS:
+        A, Bmax, D = PARAMS[tier] if "+" not in kind else PARAMS2[tier]
+        _set_kind(kind)
         seen = {((), ())}
         frontier = [()]
         per_depth = []
@@ -363,7 +392,7 @@ def explore(tier, seed, pmap):
                     nxt.append(hist)
                     total_states += 1
                     pool = key[0]
-                    if len(pool) >= 2 or any(sum(1 for b in arr if (b if kind == "contents" else b != 0.0)) >= 2 for arr in pool):
+                    if len(pool) >= 2 or any(sum(1 for b in arr if (b if base(kind) == "contents" else b != 0.0)) >= 2 for arr in pool):
                         nontrivial += 1
                     if any(s[0] != "own" or s[2] is False for s in key[1]):
                         aliased += 1
